@@ -1373,8 +1373,8 @@ pub struct AddressAssignment {
 }
 
 lazy_static! {
-    static ref DIRECT_ADDRESS_UNASSIGNED: Regex = Regex::new(r"%([IQM])\*").unwrap();
-    static ref DIRECT_ADDRESS: Regex = Regex::new(r"%([IQM])([XBWDL])?(\d(_?\d)*(\.\d(_?\d)*)*)").unwrap();
+    static ref DIRECT_ADDRESS_UNASSIGNED: Regex = Regex::new(r"^%([IQM])\*$").unwrap();
+    static ref DIRECT_ADDRESS: Regex = Regex::new(r"^%([IQM])([XBWDL])?(\d(_?\d)*(\.\d(_?\d)*)*)$").unwrap();
 }
 
 impl TryFrom<&str> for AddressAssignment {
